@@ -7,10 +7,9 @@ column name and the declared type (sqlite3AddColumn: name token, type token).  `
 stores verbatim in sqlite_schema: `name`, or `name type`, separated by `, `.
 
 `Simple` delimits the fragment for which the property theorems are proved: names and type words of
-ASCII letters, digits and underscore, a one-word type of at least two characters, the definition
-not beginning with a table-constraint keyword and the type not beginning with a column-constraint
-keyword (SQLite's grammar requires both: those are reserved words), and the type not literally
-NOT_SPECIFIED.  Everything the generator of harness/gen/ddl.py adds on top of this (quoting, other
+ASCII letters, digits and underscore, a one-word type, the definition not beginning with a
+table-constraint keyword and the type not beginning with a column-constraint keyword (SQLite's
+grammar requires both: those are reserved words).  Everything the generator of harness/gen/ddl.py adds on top of this (quoting, other
 whitespace, comments, arguments, constraints) is outside `Simple`; what the code does there is
 measured by the correspondence and oracle runs and listed in known_findings.json.
 -/
@@ -74,8 +73,7 @@ def Simple (d : ColDef) : Bool :=
   isIdent d.name && !beginsWithKeyword tableKeywords (renderCol d) &&
     (match d.type with
      | none => true
-     | some t => isIdent t && 2 ≤ t.length && !beginsWithKeyword columnKeywords t &&
-         t.map asciiUpper != notSpecified)
+     | some t => isIdent t && !beginsWithKeyword columnKeywords t)
 
 /-- nesting depth after reading `s` from depth `d`, for text made of parentheses and characters
 that cannot start a comment or a quoted string; `none` when a ")" would close more than was
@@ -85,7 +83,7 @@ def balance : Nat → List Char → Option Nat
   | d, c :: cs =>
       if c == '(' then balance (d + 1) cs
       else if c == ')' then (if d == 0 then none else balance (d - 1) cs)
-      else if c == '-' || c == '/' || c == '\'' || c == '"' || c == '`' then none
+      else if c == '-' || c == '/' || c == '\'' || c == '"' || c == '`' || c == '[' then none
       else balance d cs
 
 end SqliteDissect.Spec.Ddl
